@@ -20,6 +20,7 @@ import numpy as np
 from vt import alg, extract, sx, symrun, npshim
 from vt.alg import Ctx, X
 from vt.core import Ob, Verdict, Refuted, Unsupported, DISCHARGED, REFUTED
+from . import ops
 from . import common, patches, fem
 
 PROP = "C01"
@@ -653,6 +654,9 @@ def build(tier, seed):
     functions = {q: extract.get(GP, f"_GroupElem.{q}").describe() for q in ("Get_F_e_pg", "Get_invF_e_pg", "Get_dN_e_pg", "Get_B_e_pg", "Get_jacobian_e_pg")}
     for q in ("Det", "Inv", "Trace"):
         functions[q] = extract.get(LP, q).describe()
+    GP_GROUPS = {'B', 'pipeline'}
+    obs += ops.obligations('C01', tier, GP_GROUPS)
+    obs.append(ops.selfcheck_ob('C01'))
     return dict(
         obs=obs, level="other", min_obligations=40,
         explanation=("Element-level identities are proved for all values (closed-form Det/Inv, B placement). The isoparametric pipeline "
@@ -660,13 +664,13 @@ def build(tier, seed):
                      "type (one interior vertex node, affine exact-rational geometry, symbolic gradient and offset): gradients are exactly G, "
                      "interior residuals vanish within 2^-40. The full Solve() (assembly, elimination, external sparse solver, post-processing) "
                      "is exercised natively in floats as a bounded run-time contract."),
-        trusted_base=["numpy model vt/npshim.py + vt/symrun.py patches (allocators, sqrt, abs, Gauss points lifted exactly, exact shape tables from C06)",
+        trusted_base=ops.GP_TRUST + ["numpy model vt/npshim.py + vt/symrun.py patches (allocators, sqrt, abs, Gauss points lifted exactly, exact shape tables from C06)",
                       "scatter-add assembly by C03's contract; Dirichlet elimination by C04's contract; external sparse solve assumed (A x = b)",
                       "sympy normal form"],
         assumptions=["bounded: one star patch per element type (2^dim elements), affine geometry; not all meshes",
                      "Gauss points are the code's floats read exactly; quadrature-dependent clauses use tolerance 2^-40 x scale",
                      "X-tier solve obligations are sampled native runs (1 field per type), not proof"],
-        functions=functions,
+        functions={**functions, **ops.functions_under_contract(GP_GROUPS)},
         dropped=["B/X tiers run the imported code unmodified; only module globals `np` (and Gauss.coord/weights, element tables) are replaced"],
         not_attempted=["beam patch tests (constant axial strain / curvature)", "anisotropic / transversely isotropic laws in the patch", "mixed-type patches", "node renumbering (by C03's permutation lemma)"],
     )
